@@ -149,6 +149,9 @@ pub fn noncanonical_inner(origin: &[u8], good: &[u8], transfer: bool) -> Vec<(Ve
     out
 }
 
+pub const CHAIN32: &str = "chain-with-a-name-of-32-characte";
+pub const CHAIN33: &str = "chain-with-a-name-of-33-character";
+
 pub fn addr_xdr(env: &Env, a: &Addr) -> Vec<u8> {
     a.sdk(env).to_xdr(env).to_alloc_vec()
 }
@@ -200,7 +203,8 @@ impl<'a> I<'a> {
         for c in [own.as_slice(), hub.as_slice(), b"ethereum".as_slice()] {
             self.op(&format!("its.is_trusted {}", hx(c)), "q-initial-trust");
         }
-        for c in ["ethereum", "avalanche", "Avalanche-Fuji"] {
+        // (two of the trusted names sit on the 32-byte boundary of the encoding: 32 and 33 characters)
+        for c in ["ethereum", "avalanche", "Avalanche-Fuji", CHAIN32, CHAIN33] {
             self.op(&format!("its.set_trusted {} {}", hx(c.as_bytes()), self.owner.tok()), "set-trusted");
         }
     }
@@ -623,6 +627,8 @@ pub fn gen_c05(run: &mut Run, seed: u64, thorough: bool) {
                             1 => (i.hub_chain.clone(), "dest-hub-itself"),
                             _ => (b"avalanche".to_vec(), "dest-avalanche"),
                         }
+                    } else if i.g.rng.chance(1, 8) {
+                        if i.g.rng.chance(1, 2) { (CHAIN32.as_bytes().to_vec(), "dest-trusted-32-chars") } else { (CHAIN33.as_bytes().to_vec(), "dest-trusted-33-chars") }
                     } else if i.g.rng.chance(1, 4) {
                         // a trusted chain whose name is not all lower case (the announcement must carry it unchanged)
                         (b"Avalanche-Fuji".to_vec(), "dest-trusted-mixed-case")
@@ -671,10 +677,10 @@ pub fn gen_c05(run: &mut Run, seed: u64, thorough: bool) {
                     let to = if with_data && i.g.rng.chance(2, 3) { recv.clone() } else if i.g.rng.chance(1, 8) { i.its.clone() } else { i.g.rng.pick(&users).clone() };
                     let data = if with_data { Some(i.g.rng.bytes(4)) } else { None };
                     let hubname = i.hub_chain.clone();
-                    let origin: &[u8] = match i.g.rng.below(16) { 0 => b"polygon", 1 => &hubname, 2 => b"Avalanche-Fuji", _ => b"ethereum" };
+                    let origin: &[u8] = match i.g.rng.below(16) { 0 => b"polygon", 1 => &hubname, 2 => b"Avalanche-Fuji", 3 => CHAIN32.as_bytes(), 4 => CHAIN33.as_bytes(), _ => b"ethereum" };
                     let mut p = transfer_payload(&env, origin, &tid, b"0xRemoteSender", &addr_xdr(&env, &to), amt, data);
                     let dcl = if with_data { if to == recv { "-data-app" } else { "-data-plain" } } else { "" };
-                    let ocl = if origin == b"polygon" { "-untrusted-origin" } else if origin == &hubname[..] { "-origin-hub-name" } else if origin == b"Avalanche-Fuji" { "-origin-mixed-case" } else { "" };
+                    let ocl = if origin == b"polygon" { "-untrusted-origin" } else if origin == &hubname[..] { "-origin-hub-name" } else if origin == b"Avalanche-Fuji" { "-origin-mixed-case" } else if origin.len() >= 32 { "-origin-32-33-chars" } else { "" };
                     // an announced amount that does not fit: one high bit of the uint256 amount word set (bits 127, 128, 135,
                     // 136, 200, 255) on an otherwise valid payload — must be refused, never credited modulo anything
                     let mut big = "";
